@@ -186,6 +186,21 @@ class VSeq(V):
         return f'VSeq<{self.ek},{self.flavor}>(len={self.length})'
 
 
+class VMat(V):
+    """2-D ndarray: arr is Array Int (Array Int elem); mutable."""
+
+    def __init__(self, ek, rows, cols, arr, dtype=None):
+        self.ek = ek
+        self.rows = rows
+        self.cols = cols
+        self.arr = arr
+        self.dtype = dtype
+
+    @property
+    def kind(self):
+        return ('array2', self.ek, self.dtype)
+
+
 class VSet(V):
     def __init__(self, ek, mem, card=None):
         self.ek = ek
@@ -349,6 +364,9 @@ def fresh_value(k, base='v') -> V:
         if k[0] == 'array':
             return VSeq(k[1], z3.Int(n + '.len'), z3.Array(n + '.arr', z3.IntSort(), sort_of(k[1])),
                         flavor='array', dtype=k[2] if len(k) > 2 else None)
+        if k[0] == 'array2':
+            return VMat(k[1], z3.Int(n + '.rows'), z3.Int(n + '.cols'),
+                        z3.Array(n + '.mat', z3.IntSort(), z3.ArraySort(z3.IntSort(), sort_of(k[1]))), dtype=k[2])
         if k[0] == 'set':
             return VSet(k[1], z3.Array(n + '.mem', sort_of(k[1]), z3.BoolSort()), z3.Int(n + '.card'))
         if k[0] == 'dict':
@@ -365,6 +383,9 @@ def parse_kind(s):
     """'int32[:]' -> ('array','int','int32'); 'list[tuple[str,str]]' -> ..."""
     import ast as _ast
     s = s.strip()
+    if s.endswith('[:,:]'):
+        base = s[:-5]
+        return ('array2', 'int' if base.startswith(('int', 'uint')) else 'real', base)
     if s.endswith('[:]'):
         base = s[:-3]
         if base.startswith(('int', 'uint')):
